@@ -1,4 +1,4 @@
-HOOK_COMMITS = ["54b21b4", "8bce86c", "fb2c2cd"]
+HOOK_COMMITS = ["54b21b4", "8bce86c", "fb2c2cd", "16189f5", "c575742", "2c62729"]
 NOTES = ("Model-based verification with an explicit TLA+ specification (spec/): TwigText/TwigValues/TwigSem/TwigSyntax are the "
          "reference semantics and printer; MC_Cxx are the bounded models TLC checks and enumerates; Trace_Cxx validate recorded "
          "behaviour of the implementation. Properties not yet listed under checks are still being built; until their check is "
